@@ -214,6 +214,8 @@ func runC12(c *Ctx) {
 	a.relock(fns)
 	a.pairing(fns)
 	a.handedOut(fns)
+	r.Rule("C12.5", "one-snapshot: an operation takes the cache lock once - not once per looked-up item, and not a second time to publish what it computed from data read under the first", 20)
+	a.oneSection(fns)
 }
 
 func onlyUnknown(rs []lockReq) bool {
@@ -921,4 +923,114 @@ func (a *c12) handedOut(fns []*ssa.Function) {
 
 func pathNoRoot(p ir.Path) string {
 	return p.SelString()
+}
+
+// oneSection: C12.5. Every result must reflect ONE state of the cache. An
+// operation that acquires the cache lock more than once in a call - in a loop
+// (one acquisition per requested device) or in sequence (read the configuration
+// under the lock, scan without it, lock again to publish) - can combine data of
+// two states, without any data race. The watcher's event loop, which handles
+// each event in a critical section of its own and carries nothing over, is the
+// one function exempt by design.
+func (a *c12) oneSection(fns []*ssa.Function) {
+	c, r, u := a.c, a.c.R, a.c.U
+	const class = "Cache.Mutex"
+	exempt := map[string]string{
+		"(*watch).watch": "event loop: one critical section per event, no data carried from one to the next",
+	}
+	// which functions take the lock of an EXISTING cache: locking the cache a constructor has
+	// just allocated (newCache/NewCache) is not a critical section of the operation
+	constructor := map[string]bool{"newCache": true, "NewCache": true}
+	acq := map[*ssa.Function]bool{}
+	for changed := true; changed; {
+		changed = false
+		for _, fn := range fns {
+			if acq[fn] || constructor[u.RelName(fn)] {
+				continue
+			}
+			for _, call := range ir.Calls(fn) {
+				if op := u.LockOpOf(call); op != nil {
+					if op.Acquire && op.Class == class {
+						acq[fn] = true
+					}
+					continue
+				}
+				if _, isGo := call.(*ssa.Go); isGo {
+					continue
+				}
+				for _, callee := range u.Callees(call) {
+					if acq[callee] {
+						acq[fn] = true
+					}
+				}
+				// closures handed to sync.Once.Do and the like run inside the call
+				for _, arg := range call.Common().Args {
+					for _, f := range u.FuncValues(arg) {
+						if acq[f] {
+							acq[fn] = true
+						}
+					}
+				}
+			}
+			if acq[fn] {
+				changed = true
+			}
+		}
+	}
+	for _, fn := range fns {
+		if len(fn.Blocks) == 0 {
+			continue
+		}
+		type site struct {
+			in   ssa.Instruction
+			what string
+		}
+		var sites []site
+		for _, call := range ir.Calls(fn) {
+			if op := u.LockOpOf(call); op != nil {
+				if op.Acquire && !op.Defer && op.Class == class {
+					sites = append(sites, site{call.(ssa.Instruction), "Lock"})
+				}
+				continue
+			}
+			if _, isDefer := call.(*ssa.Defer); isDefer {
+				continue
+			}
+			if _, isGo := call.(*ssa.Go); isGo {
+				continue
+			}
+			for _, callee := range u.Callees(call) {
+				if !u.IsRepoFunc(callee) {
+					continue
+				}
+				if acq[callee] {
+					sites = append(sites, site{call.(ssa.Instruction), u.RelName(callee)})
+					break
+				}
+			}
+		}
+		if len(sites) == 0 {
+			continue
+		}
+		name := u.RelName(fn)
+		var problems []string
+		for i, s1 := range sites {
+			for j, s2 := range sites {
+				if i == j {
+					if ir.CanReach(fn, ir.PathQuery{From: s1.in, To: s1.in}) {
+						problems = append(problems, fmt.Sprintf("%s at %s is repeated in a loop", s1.what, c.pos(s1.in)))
+					}
+					continue
+				}
+				if i < j && (ir.CanReach(fn, ir.PathQuery{From: s1.in, To: s2.in}) || ir.CanReach(fn, ir.PathQuery{From: s2.in, To: s1.in})) {
+					problems = append(problems, fmt.Sprintf("%s at %s and %s at %s on one path", s1.what, c.pos(s1.in), s2.what, c.pos(s2.in)))
+				}
+			}
+		}
+		if why, ok := exempt[name]; ok {
+			r.OK("C12.5", "one-section:"+name, u.Pos(fn.Pos()), "exempt: "+why)
+			continue
+		}
+		r.Check("C12.5", "one-section:"+name, len(problems) == 0, u.Pos(fn.Pos()), fmt.Sprintf("%s takes the cache lock at most once per call (%d acquiring site(s))%s", name, len(sites), ifMsg(strings.Join(problems, "; "))))
+	}
 }
